@@ -50,6 +50,7 @@ class ConMk:
 
     def __init__(self, model: Dict[str, Any], seed: int = 0, dtype: Optional[torch.dtype] = torch.float64, fill: Optional[float] = None):
         self.model = model
+        self.seed = seed
         self.gen = torch.Generator().manual_seed(seed)
         self.dtype = dtype
         self.fill = fill
@@ -74,16 +75,20 @@ class ConMk:
         return t
 
     def index(self, name: str, shape: Sequence[Any], high: Any) -> torch.Tensor:
-        # every index value occurs when the tensor is large enough (cyclic, then shuffled): a special index (padding_idx, ignore_index)
-        # is then certainly present in the replay data, next to ordinary ones
+        # two kinds of draws, by seed parity: (even) every index value occurs when the tensor is large enough (cyclic, shuffled), so a special
+        # index (padding_idx, ignore_index) is certainly present next to ordinary ones; (odd) independent uniform draws, so the NUMBER of
+        # occurrences of any value differs between the two data draws of a replay (a factor that counts them is data dependent)
         sh = tuple(int(s) for s in shape)
         n = 1
         for v in sh:
             n *= v
-        t = (torch.arange(n) % max(int(high), 1))
-        if n > 1:
-            t = t[torch.randperm(n, generator=self.gen)]
-        t = t.reshape(sh)
+        if self.seed % 2 == 0:
+            t = (torch.arange(n) % max(int(high), 1))
+            if n > 1:
+                t = t[torch.randperm(n, generator=self.gen)]
+            t = t.reshape(sh)
+        else:
+            t = torch.randint(0, int(high), sh, generator=self.gen)
         self.tensors[name] = t
         return t
 
@@ -328,7 +333,8 @@ def spec_embedding(mk: Any, cfg: Dict[str, Any]) -> Call:
     V, H = mk.dim("vocab", 2, sample=7), mk.dim("hidden", sample=3)
     lead = _lead(mk, cfg["rank"])
     idx = mk.index("idx", lead, V)
-    w = mk.tensor("w", (V, H), DT[cfg["dtype"]])
+    frozen = bool(cfg.get("frozen"))  # a table that does not require grad (loaded / tied / inference): it must be left alone all the same
+    w = mk.tensor("w", (V, H), DT[cfg["dtype"]], grad=not frozen)
     pidx = None
     if cfg.get("padding_idx"):
         pidx = mk.dim("padding_idx", 0, 2 ** 20, sample=1)
@@ -336,7 +342,7 @@ def spec_embedding(mk: Any, cfg: Dict[str, Any]) -> Call:
     mn = mk.real("max_norm", 0, 1e3, lo_strict=True, default=0.7) if cfg.get("max_norm") else None
     nt = mk.real("norm_type", 1, 4, default=2.0) if cfg.get("max_norm") else 2.0
     batch = SSize(lead).numel() if lead else 1
-    return Call(lambda c: U.embedding(idx, w, pidx, mn, nt), lambda: F.embedding(idx, w, pidx, mn, nt), {"w": w}, {"idx": idx, "w": w},
+    return Call(lambda c: U.embedding(idx, w, pidx, mn, nt), lambda: F.embedding(idx, w, pidx, mn, nt), {} if frozen else {"w": w}, {"idx": idx, "w": w},
                 unit=True, terms={"w": _sreal(batch) / V} if not cfg.get("padding_idx") and not cfg.get("max_norm") else {})
 
 
@@ -404,10 +410,12 @@ def spec_mse_loss(mk: Any, cfg: Dict[str, Any]) -> Call:
     import unit_scaling.functional as U
     sh = _lead(mk, cfg["rank"])
     dt = DT[cfg["dtype"]]
-    x, t = mk.tensor("x", sh, dt), mk.tensor("target", sh, dt)
+    tg = bool(cfg.get("target_grad", True))  # the target as plain data (the usual case in training) or as a second differentiable operand
+    x, t = mk.tensor("x", sh, dt), mk.tensor("target", sh, dt, grad=tg)
     red = cfg.get("reduction", "mean")
-    return Call(lambda c: U.mse_loss(x, t, reduction=red), lambda: F.mse_loss(x, t, reduction=red), {"x": x, "target": t},
-                {"x": x, "target": t}, unit=True, grad_ref=lambda: F.mse_loss(x, t, reduction="sum"), terms={"x": 8, "target": 8})
+    diff = {"x": x, "target": t} if tg else {"x": x}
+    return Call(lambda c: U.mse_loss(x, t, reduction=red), lambda: F.mse_loss(x, t, reduction=red), diff,
+                {"x": x, "target": t}, unit=True, grad_ref=lambda: F.mse_loss(x, t, reduction="sum"), terms={"x": 8, "target": 8} if tg else {"x": 8})
 
 
 SPECS: Dict[str, Callable[[Any, Dict[str, Any]], Call]] = {
@@ -483,6 +491,7 @@ def configs(op: str, tier: str) -> List[Dict[str, Any]]:
             for pi in (False, True):
                 for mn in (False, True):
                     add(rank=r, padding_idx=pi, max_norm=mn, constraint=None, dtype=dts[r % len(dts)])
+            add(rank=r, padding_idx=False, max_norm=True, constraint=None, dtype=dts[r % len(dts)], frozen=True)
     elif op == "scaled_dot_product_attention":
         for r in ([0, 1, 2] if th else [0, 2]):
             for causal in (False, True):
@@ -498,6 +507,7 @@ def configs(op: str, tier: str) -> List[Dict[str, Any]]:
         for r in ranks:
             for red in ("mean", "sum"):
                 add(rank=r, reduction=red, constraint=None, dtype=dts[r % len(dts)])
+                add(rank=r, reduction=red, constraint=None, dtype=dts[r % len(dts)], target_grad=False)
     if th:  # thorough: every configuration under every dtype (quick rotates the dtype over the configurations)
         full, seen = [], set()
         for cfg in out:
@@ -602,6 +612,7 @@ def harness(cfg: Dict[str, Any], props: Sequence[str]) -> Callable[[Ctx], Any]:
             call = SPECS[op](mk, cfg)
             inputs = [t for t in call.inputs.values() if isinstance(t, STensor)]
             out = call.lib(kappa)
+            versions_after_lib = [t.version for t in inputs]  # the PyTorch reference may itself write into its arguments (embedding max_norm)
             ref = call.ref()
             kn = [(k, v) for k, v in call.known.items()]
             # ------------------------------------------------ forward (C01)
@@ -620,7 +631,7 @@ def harness(cfg: Dict[str, Any], props: Sequence[str]) -> Callable[[Ctx], Any]:
                 c.oblige("fwd: same shape as reference", sh_claim, info={**base, "claim": "shape"})
                 c.oblige("fwd: same dtype as reference", z3.BoolVal(out.dtype == ref.dtype), info={**base, "claim": "dtype",
                                                                                                 "detail": f"{out.dtype} vs {ref.dtype}"})
-                c.oblige("no input modified", z3.BoolVal(all(t.version == 0 for t in inputs)), info={**base, "claim": "unmodified"})
+                c.oblige("no input modified", z3.BoolVal(all(v == 0 for v in versions_after_lib)), info={**base, "claim": "unmodified"})
             # ------------------------------------------------ backward (C02)
             G = STensor.leaf("G", out.shape, out.dtype)
             factors: Dict[str, Any] = {"out": kf}
@@ -789,10 +800,14 @@ def measure(cfg: Dict[str, Any], model: Dict[str, Any], seed: int = 0, constrain
     snap = {n: t.detach().clone() for n, t in mk.tensors.items()}
     torch.manual_seed(seed)
     out = call.lib(kappa)
+    res["modified"] = [n for n, t in mk.tensors.items() if not torch.equal(t.detach(), snap[n])]  # by the LIBRARY call (the PyTorch reference may itself renormalise a table in place)
+    for n, t in mk.tensors.items():
+        if n in res["modified"]:
+            with torch.no_grad():
+                t.copy_(snap[n])
     torch.manual_seed(seed)
     ref = call.ref()
     res["shape"] = (tuple(out.shape), tuple(ref.shape))
-    res["modified"] = [n for n, t in mk.tensors.items() if not torch.equal(t.detach(), snap[n])]
     res["out"] = _ratio_c(out, ref) if tuple(out.shape) == tuple(ref.shape) else (float("nan"), float("inf"))
     g = torch.randn(out.shape, generator=mk.gen, dtype=out.dtype)
     diff = {n: t for n, t in call.diff.items()}
@@ -985,8 +1000,9 @@ def encoded_functions() -> List[str]:
     import unit_scaling.functional as U
     import unit_scaling.scale as us
 
-    fns = [getattr(U, n) for n in SPECS] + [U._unscaled_gelu, U._unscaled_silu, U._unscaled_softmax, U._unscaled_rms_norm,
-                                           U._get_broadcast_sizes, ucf.scale_elementwise, ucf.logarithmic_interpolation, ucf.rms,
-                                           uc.apply_constraint, uc.gmean, uc.hmean, uc.amean, us._ScaledGrad.forward,
-                                           us._ScaledGrad.backward, us.scale_fwd, us.scale_bwd]
+    from ..report import lazy
+    fns = [lazy(lambda n=n: getattr(U, n)) for n in SPECS] + [lazy(lambda m=m, a=a: getattr(m, a)) for m, a in (
+        (U, "_unscaled_gelu"), (U, "_unscaled_silu"), (U, "_unscaled_softmax"), (U, "_unscaled_rms_norm"), (U, "_get_broadcast_sizes"), (ucf, "scale_elementwise"),
+        (ucf, "logarithmic_interpolation"), (ucf, "rms"), (uc, "apply_constraint"), (uc, "gmean"), (uc, "hmean"), (uc, "amean"), (us, "scale_fwd"), (us, "scale_bwd"))]
+    fns += [lazy(lambda: us._ScaledGrad.forward), lazy(lambda: us._ScaledGrad.backward)]
     return [describe_function(f) for f in fns]
